@@ -185,7 +185,12 @@ Widen(sign, e, mant, eb) ==
     LET bias == Pow2(eb - 1) - 1
         mb == Len(mant)
         emax == Pow2(eb) - 1
-    IN IF e = emax THEN MkF64(sign, 2047, mant \o Rep(0, 52 - mb))          \* inf / nan (payload kept, left aligned)
+    IN IF e = emax THEN                                                      \* inf / nan
+            IF \A i \in 1..mb : mant[i] = 0 THEN MkF64(sign, 2047, Rep(0, 52))
+            \* CPython: a binary16 NaN unpacks to the canonical quiet NaN (sign kept, payload dropped); a binary32 NaN keeps its
+            \* payload, left aligned, and is quieted by the float -> double conversion
+            ELSE IF eb = 5 THEN MkF64(sign, 2047, <<1>> \o Rep(0, 51))
+            ELSE MkF64(sign, 2047, <<1>> \o SubSeq(mant, 2, mb) \o Rep(0, 52 - mb))
        ELSE IF e = 0 THEN
             IF \A i \in 1..mb : mant[i] = 0 THEN MkF64(sign, 0, Rep(0, 52))   \* zero
             ELSE LET z == LeadZeros(mant)                                     \* subnormal: normalise
@@ -212,7 +217,8 @@ Narrow(f, eb, mb) ==
         emax == Pow2(eb) - 1
     IN IF e = 2047 THEN
             IF \A i \in 1..52 : m[i] = 0 THEN Ok(<<sign, emax, Rep(0, mb)>>)                \* inf
-            ELSE Ok(<<sign, emax, <<1>> \o SubSeq(m, 2, mb)>>)                               \* nan (quiet)
+            ELSE IF eb = 5 THEN Ok(<<sign, emax, <<1>> \o Rep(0, mb - 1)>>)                   \* nan: binary16 packs the canonical one
+            ELSE Ok(<<sign, emax, <<1>> \o SubSeq(m, 2, mb)>>)                               \* nan (quiet, payload kept)
        ELSE IF e = 0 THEN Ok(<<sign, 0, Rep(0, mb)>>)        \* zero and binary64 subnormals round to zero
        ELSE LET ue == e - 1023                                 \* unbiased exponent, significand 1.m
             IN IF ue + bias >= 1 THEN                          \* normal range (before rounding)
